@@ -5,7 +5,7 @@ import "errors"
 // C02 — the decoder accepts exactly RFC 5389 framing and reports its TLV list.
 
 func vh_C02_framing() {
-	k := vxK(2, 4)
+	k := vxK(2, 3)
 	vxUnwind(k, true)
 	raw := vxRawBuf()
 	m := &Message{Raw: raw}
